@@ -159,7 +159,14 @@ func resumeMain(p ResumeParams) {
 	fileState := map[uint16]*models.CheckpointDocument{}
 	for vb := uint16(0); vb < 3; vb++ {
 		c.Vb[vb].High = highs[vb]
+		// a vBucket that has been failed over: the newest entry names the current history branch
 		c.Vb[vb].Failover = []gocbcore.FailoverEntry{{VbUUID: gocbcore.VbUUID(7000 + uint64(vb)), SeqNo: 0}}
+		if vb >= 1 {
+			c.Vb[vb].Failover = append(c.Vb[vb].Failover, gocbcore.FailoverEntry{VbUUID: gocbcore.VbUUID(6000 + uint64(vb)), SeqNo: 0})
+		}
+		if vb >= 2 {
+			c.Vb[vb].Failover = append(c.Vb[vb].Failover, gocbcore.FailoverEntry{VbUUID: gocbcore.VbUUID(5000 + uint64(vb)), SeqNo: 0})
+		}
 		if subset&(1<<vb) == 0 {
 			continue
 		}
@@ -372,4 +379,33 @@ func roundTripMain(p ResumeParams) {
 		}
 	}
 	vrt.SetOutcome(fmt.Sprintf("%+v", want))
+}
+
+// tornFilePure runs the non-overlay wrapcheck binary in tornfile mode (real file backend + real wrapper map).
+func tornFilePure(prop string) func(tier string) *PureResult {
+	return func(tier string) *PureResult {
+		res := &PureResult{Exhaustive: true}
+		self, _ := os.Executable()
+		out, err := exec.Command(filepath.Join(filepath.Dir(self), "wrapcheck"), "tornfile").Output()
+		if err != nil {
+			res.Violations = append(res.Violations, pureViolation(prop, "wrapcheck tornfile could not run: "+err.Error()))
+			return res
+		}
+		var wr struct {
+			Evaluations int64    `json:"evaluations"`
+			Sequences   int64    `json:"sequences"`
+			Violations  []string `json:"violations"`
+		}
+		if err := json.Unmarshal(out, &wr); err != nil {
+			res.Violations = append(res.Violations, pureViolation(prop, "wrapcheck output: "+err.Error()))
+			return res
+		}
+		res.Evaluations, res.Distinct, res.States, res.Transitions = wr.Evaluations, wr.Sequences, wr.Sequences, wr.Evaluations
+		for _, v := range wr.Violations {
+			res.Violations = append(res.Violations, pureViolation(prop, "checkpoint file torn by a crash inside the write: "+v))
+		}
+		res.Samples = []any{"3 saved states x every byte prefix of the file, real metadata.fileMetadata.Load on the real wrapper.ConcurrentSwissMap"}
+		res.Notes = []string{"non-overlay binary: real file backend and real sharded map; every byte prefix of three checkpoint files"}
+		return res
+	}
 }
